@@ -29,11 +29,13 @@ def gen_cases(rng, n, max_depth, exhaustive_children=False):
                 out.append({"routine": r, "seed": rng.randint(0, 10**9), "child_perm": list(perm)})
         else:
             out.append({"routine": r, "seed": rng.randint(0, 10**9)})
+            if rng.random() < 0.4:
+                out[-1]["reverse"] = True      # the exactly reversed listing: every pairwise order is flipped
     return out
 
 
 def permuted(case):
-    return H.permute_lists(case["routine"], lib.Rng(case["seed"]), case.get("child_perm"))
+    return H.permute_lists(case["routine"], lib.Rng(case["seed"]), case.get("child_perm"), reverse=bool(case.get("reverse")))
 
 
 def emit(pairs):
